@@ -499,6 +499,25 @@ func runLoaded(t *tr.Trace, r *tr.Rand, root string) {
 		rootNoAdmin.admin = never
 		confStep("server admin, permission withdrawn", "root",
 			func(u *userDef) { u.perms = "role:op" }, root1, rootNoAdmin)
+		// F32 (fixed): config.json is removed altogether: nobody is a server
+		// administrator any more (the configuration read earlier must not survive)
+		{
+			list := shape{path: apiPrefix + "g1/.users/", scope: "g1", kind: "none"}
+			w.do("GET", list, rootb1, noBody)
+			os.Remove(filepath.Join(w.data, "config.json"))
+			w.def.conf = nil
+			w.def.writable = false
+			w.cur = nil
+			t.Op("-", "confclear")
+			t.Note("config-removed")
+			gone := rootb1
+			gone.name = rootb1.name + "-revoked(config.json removed)"
+			gone.admin = never
+			gone.kind = "revoked"
+			w.do("GET", list, gone, noBody)
+			w.do("GET", shape{path: "/galene-api/v0/.groups/", scope: "", kind: "none"}, gone, noBody)
+			w.do("PUT", shape{path: apiPrefix + "g1/.users/intruder", scope: "g1", kind: "user"}, gone, userBody(ctJSON, "role:admin", pwSpec{"none", ""}))
+		}
 		_ = r
 		group.Delete("g1")
 		group.Delete("g2")
